@@ -82,12 +82,16 @@ func faultCases() []eng.FaultCase {
 // bigBatchInvalid: an offending document (duplicate inside the batch, duplicate of a stored id, malformed id) at the
 // middle or the end of a batch of several hundred to several thousand documents: error, nothing changed.
 func bigBatchInvalid(run *ev.Run) {
+	bigBatchInvalidSizes(run, []int{150, 600, 1300, 2500, -2600}, []string{"last", "middle"}, []string{"dup-in-batch", "dup-stored", "malformed", "import-dup-in-file", "import-malformed-in-file"})
+}
+
+func bigBatchInvalidSizes(run *ev.Run, sizes []int, wheres, kinds []string) {
 	for _, b := range []string{drv.BBolt, drv.Badger} {
 		in := drv.MustOpen(b)
 		for _, idx := range []bool{false, true} {
-			for _, n := range []int{150, 600, 1300, 2500, -2600} {
-				for _, where := range []string{"last", "middle"} {
-					for _, kind := range []string{"dup-in-batch", "dup-stored", "malformed"} {
+			for _, n := range sizes {
+				for _, where := range wheres {
+					for _, kind := range kinds {
 						in.Fresh(nil)
 						model := m.NewDB()
 						setup := []m.Op{{K: "createColl", Coll: "a"}, ins("a", doc(u1, "x", int64(1)))}
@@ -119,8 +123,39 @@ func bigBatchInvalid(run *ev.Run) {
 						case "malformed":
 							docs[pos] = m.Doc{"_id": "not-a-uuid", "x": int64(99)}
 						}
+						op := ins("a", docs...)
+						if strings.HasPrefix(kind, "import-") {
+							// the same batch as a JSON file imported under a new name: a failed import leaves nothing behind
+							if idx || pad > 0 {
+								continue
+							}
+							bad := `{"_id":"` + docs[0]["_id"].(string) + `","x":99}`
+							if kind == "import-malformed-in-file" {
+								bad = `{"_id":"not-a-uuid","x":99}`
+							}
+							var sb strings.Builder
+							sb.WriteString("[")
+							for i, d := range docs {
+								if i > 0 {
+									sb.WriteString(",")
+								}
+								if i == pos {
+									sb.WriteString(bad)
+								} else {
+									fmt.Fprintf(&sb, `{"_id":"%s","x":%d}`, d["_id"], i%9)
+								}
+							}
+							sb.WriteString("]")
+							op = m.Op{K: "import", Coll: "imported", Text: drv.WriteTemp("big-import.json", sb.String())}
+						}
 						before := drv.CanonState(in.Dump())
-						res, _, fs := drv.Step(in, model, ins("a", docs...))
+						res, _, fs := drv.Step(in, model, op)
+						if strings.HasPrefix(kind, "import-") {
+							fs = nil // the model is not told the file content; the outcome is judged below
+							if res.Err == nil && res.Panic == nil {
+								run.Violation("big-import-accepted|"+b+"|"+kind, fmt.Sprintf("[%s] ImportCollection of %d documents with a %s at position %d returned success", b, n, kind, pos), nil)
+							}
+						}
 						run.Add("big_batch_cases", 1)
 						name := fmt.Sprintf("%s|%s|indexed=%v|%s", b, kind, idx, where)
 						w := map[string]interface{}{"engine": "bigbatch", "backend": b, "batch": n, "offending": kind, "position": pos, "indexed": idx}
